@@ -20,6 +20,7 @@ EOS = EO[:1] + EO[2:] + ["every losing alternative is withdrawn and the winner m
 SCENARIOS = [
     dict(sc("VerifC06_Stub_One", "C06 one alternative fires (stand-in event nodes)", "one of the two alternatives fires (solver's choice); alternatives are stand-ins for catch events"), expect_obligations=EOS[:2]),
     dict(sc("VerifC06_Stub_Both", "C06 both alternatives fire concurrently (stand-in event nodes)", "both alternatives fire from two goroutines, all interleavings"), expect_obligations=EOS[:2]),
+    dict(sc("VerifC06_Stub_Early", "C06 event already pending when the gateway is reached (stand-in event nodes)", "the first alternative fires as soon as it is asked; the second never fires; the start of every goroutine is a scheduling point"), expect_obligations=EOS[1:2], spawn_yield=True),
     sc("VerifC06_One", "C06 one event", "one event (sig1 or sig2), real catch events and Process.ConsumeEvent", tiers=("thorough",), K=140),
     sc("VerifC06_Concurrent", "C06 two competing events, concurrent", "sig1 and sig2 delivered concurrently from two goroutines, real catch events", tiers=("thorough",), K=140),
     sc("VerifC06_Seq2", "C06 two events, sequential", "two events (each sig1 or sig2) from one goroutine", tiers=("thorough",), K=140),
